@@ -90,7 +90,7 @@ Qed.
 
 Theorem wf_world_good w : wf_worldb w = true -> GoodW w.
 Proof.
-  unfold wf_worldb. intro H. apply andb_true_iff in H. destruct H as [H RM]. apply andb_true_iff in H. destruct H as [PR ND].
+  unfold wf_worldb. intro H. apply andb_true_iff in H. destruct H as [H _]. apply andb_true_iff in H. destruct H as [H RM]. apply andb_true_iff in H. destruct H as [PR ND].
   rewrite forallb_forall in PR. destruct (rm_fresh_RInv _ RM) as [I U]. split.
   - intros d x Hx. apply pristine_AllInv. apply (PR (d, x)). apply aget_In, Hx.
   - apply HoldW_initial; auto.
@@ -198,7 +198,7 @@ Qed.
 
 Lemma pristine_noshut w : wf_worldb w = true -> NoShut w.
 Proof.
-  unfold wf_worldb. intro H. apply andb_true_iff in H. destruct H as [H _]. apply andb_true_iff in H. destruct H as [PR _].
+  unfold wf_worldb. intro H. apply andb_true_iff in H. destruct H as [H _]. apply andb_true_iff in H. destruct H as [H _]. apply andb_true_iff in H. destruct H as [PR _].
   rewrite forallb_forall in PR. intro d. unfold getd. destruct (aget d (f_devs w)) as [x|] eqn:Hx; [|reflexivity].
   apply aget_In in Hx. specialize (PR _ Hx). apply (pristine_facts _ PR).
 Qed.
@@ -279,3 +279,77 @@ Proof. intros H Hx. destruct (reach_good sc s H) as [A _]. exact (A d x Hx). Qed
 
 Lemma reach_hold sc s : reach_fl sc s -> HoldW (fst s).
 Proof. intro H. exact (proj2 (reach_good sc s H)). Qed.
+
+(** * the same closure argument for any invariant that reads the devices only *)
+Section Closure.
+  Variable Inv : fw -> Prop.
+  Hypothesis Inv_same : forall w w', f_devs w' = f_devs w -> Inv w -> Inv w'.
+  Hypothesis Inv_exec : forall nw fuel uops a w, Inv w -> Inv (exec_fact fuel uops a w nw).
+  Hypothesis Inv_uop : forall fuel nw w o, Inv w -> Inv (run_uop fuel nw w o).
+  Hypothesis Inv_init : forall fuel nw w, wf_worldb w = true -> Inv (init_world fuel nw w).
+
+  Lemma step_Inv sc ws s r : Inv (fst s) -> step ws (exec_fl sc) fl_wfail s = Some r -> Inv (fst (res_val r)).
+  Proof.
+    destruct s as [w en]. cbn [fst]. intros I H. unfold step in H.
+    destruct (queue en) as [|e q]; [discriminate|].
+    destruct (e_cancelled e); [injection H as <-; exact I|].
+    destruct (e_act e) as [a|]; [|injection H as <-; exact I].
+    unfold exec_fl in H.
+    set (w1 := exec_fact (fl_fuel w) (fun k => nth k (fq_uops sc) []) a w (e_time e)) in *.
+    assert (I1 : Inv w1) by (apply Inv_exec; exact I).
+    assert (I2 : Inv (fst (flush_f w1))) by (apply (Inv_same w1); [reflexivity|exact I1]).
+    destruct (flush_f w1) as [w2 cs] eqn:FL. cbn [fst] in I2.
+    destruct (apply_cmds ws _ cs); [destruct (fl_wfail w2)|]; injection H as <-; cbn; exact I2.
+  Qed.
+
+  Lemma loop_Inv sc ws fuel : forall s r, Inv (fst s) -> loop ws (exec_fl sc) fl_wfail fuel s = Some r -> Inv (fst (res_val r)).
+  Proof.
+    induction fuel as [|f IH]; intros s r G H; cbn in H.
+    - destruct (queue (snd s)); [injection H as <-; exact G|]. destruct (terminated (snd s)); [injection H as <-; exact G|discriminate].
+    - destruct (queue (snd s)) eqn:Q; [injection H as <-; exact G|]. destruct (terminated (snd s)); [injection H as <-; exact G|].
+      destruct (step ws (exec_fl sc) fl_wfail s) as [[s'|s']|] eqn:ST.
+      + apply (IH s' r); [apply (step_Inv sc ws s (Ok s') G ST)|exact H].
+      + injection H as <-. apply (step_Inv sc ws s (Err s') G ST).
+      + injection H as <-. exact G.
+  Qed.
+
+  Lemma do_fxop_Inv sc s x : Inv (fst s) -> x <> FXInit -> Inv (fst (fst (do_fxop sc s x))).
+  Proof.
+    intros G NI. unfold do_fxop. set (ws := wgen (fq_seed sc) (fq_mod sc)).
+    assert (FIN : forall w, Inv w ->
+       Inv (fst (fst (let '(w1, cs) := flush_f w in
+                      match apply_cmds ws (snd s) cs with
+                      | Ok en => ((clear_ferr w1, en), f_err w1)
+                      | Err en => ((clear_ferr w1, en), if f_err w1 =? 0 then 1 else f_err w1)
+                      end)))).
+    { intros w Gw. assert (Gf : Inv (fst (flush_f w))) by (apply (Inv_same w); [reflexivity|exact Gw]).
+      destruct (flush_f w) as [w1 cs]. cbn [fst] in Gf.
+      destruct (apply_cmds ws (snd s) cs); cbn; (apply (Inv_same w1); [reflexivity|exact Gf]). }
+    destruct x.
+    - contradiction.
+    - destruct (step ws (exec_fl sc) fl_wfail s) as [[s'|s']|] eqn:ST; cbn.
+      + apply (step_Inv sc ws s (Ok s') G ST).
+      + apply (Inv_same (fst s')); [reflexivity|]. apply (step_Inv sc ws s (Err s') G ST).
+      + exact G.
+    - unfold run. destruct (start_run ws (snd s) d) as [en|en].
+      + match goal with |- context[loop ?a ?b ?c ?n ?st] => destruct (loop a b c n st) as [[s'|s']|] eqn:RN end; cbn [fst].
+        * apply (loop_Inv sc ws _ (fst s, en) (Ok s') G RN).
+        * apply (Inv_same (fst s')); [reflexivity|]. apply (loop_Inv sc ws _ (fst s, en) (Err s') G RN).
+        * exact G.
+      + cbn [fst]. apply (Inv_same (fst s)); [reflexivity|exact G].
+    - destruct (apply_cmd ws (snd s) (CSched t prio (-5) (AUser k))); cbn; exact G.
+    - apply FIN. apply Inv_uop, G.
+  Qed.
+
+  Theorem reach_Inv sc s : reach_fl sc s -> Inv (fst s).
+  Proof.
+    induction 1 as [WF|s x _ IH NX].
+    - unfold do_fxop. cbn [fst snd].
+      assert (G : Inv (init_world (fl_fuel (fq_world sc)) (now (init_env (A:=fact))) (fq_world sc))) by (apply Inv_init, WF).
+      set (w0 := init_world _ _ _) in *.
+      assert (Gf : Inv (fst (flush_f w0))) by (apply (Inv_same w0); [reflexivity|exact G]).
+      destruct (flush_f w0) as [w1 cs]. cbn [fst] in Gf.
+      destruct (apply_cmds _ _ cs); cbn; (apply (Inv_same w1); [reflexivity|exact Gf]).
+    - apply do_fxop_Inv; assumption.
+  Qed.
+End Closure.
